@@ -186,7 +186,7 @@ class State:
                 return True, r
             return False, f"no proof rule bounds this Index::index({fmt_terms(o.of_operand(t['args'][0]))}, {fmt_terms(o.of_operand(t['args'][1]))})"
         if kind in ("call", "diverge"):
-            r = self.p_dead_arm(b, blk, t) or self.p_protocol(b, blk, t)
+            r = self.p_dead_arm(b, blk, t) or self.p_protocol(b, blk, t) or self.p_dead_rematch(b, blk, t)
             if r:
                 return True, r
             return False, "reachable panicking call"
@@ -726,6 +726,43 @@ class State:
             except Undecided:
                 return False, "validate_arity undecidable"
         return True, ""
+
+    def p_dead_rematch(self, b, blk, t):
+        """`unreachable!()` in the arm of a second `match` on the same immutable value whose variants an earlier `match`
+        has already answered (returned / diverged): the arm's variants cannot arrive here."""
+        o = self.o(b)
+        br = self.br(b)
+        sws = []
+        for sb, sw in br.switches():
+            ve = br.variant_edges(sb)
+            if ve and ve["scrutinee"] and ve["adt"] in self.lib.adts:
+                sws.append((sb, ve))
+
+        def immutable(terms):
+            for x in terms:
+                while x[0] == "field":
+                    x = x[1]
+                if x[0] != "param" or not (b.local_ty(x[1]) or "").startswith("&") or (b.local_ty(x[1]) or "").startswith("&mut"):
+                    return False
+            return True
+        for s2, ve2 in sws:
+            here = {v for v, tgt in ve2["edges"].items() if tgt != ve2["otherwise"] and edge_dominates(b, (s2, tgt), blk)}
+            if not here or not immutable(ve2["scrutinee"]):
+                continue
+            for s1, ve1 in sws:
+                if s1 == s2 or ve1["scrutinee"] != ve2["scrutinee"] or ve1["adt"] != ve2["adt"] or not b.dominates(s1, s2):
+                    continue
+                # variants whose edge of the first match can still reach the second one
+                names = set(ve1["all"]) if ve1.get("all") else set(ve1["edges"])
+                through = set()
+                for v in names:
+                    tgt = ve1["edges"].get(v, ve1["otherwise"])
+                    if s2 in reach_avoiding(b, tgt):
+                        through.add(v)
+                if not (here & through):
+                    return (f"P-dead-rematch: this arm handles {sorted(here)} of a value already matched at bb{s1}, where those variants "
+                            f"leave the function; only {sorted(through)} reach the second match")
+        return None
 
     def p_dead_arm(self, b, blk, t):
         if b.impl_trait != "functions::Function" or b.item_name != "evaluate":
